@@ -26,13 +26,13 @@ Qed.
    output". *)
 Theorem html_mod_commuting conv parts specs vals :
   (forall sp s, conv sp (html_escape cfg_now s) = html_escape cfg_now (conv sp s)) ->
-  html_mod_markup conv parts specs vals = html_mod_markup_patched conv parts specs vals.
-Proof. intros H. unfold html_mod_markup, html_mod_markup_patched. now rewrite map2_conv_map. Qed.
+  html_mod_markup conv parts specs vals = html_mod_markup_spec conv parts specs vals.
+Proof. intros H. unfold html_mod_markup, html_mod_markup_spec. now rewrite map2_conv_map. Qed.
 
 Theorem ansi_mod_commuting conv parts specs vals :
   (forall sp s, conv sp (ansi_escape cfg_now s) = ansi_escape cfg_now (conv sp s)) ->
-  ansi_mod_text conv parts specs vals = ansi_mod_text_patched conv parts specs vals.
-Proof. intros H. unfold ansi_mod_text, ansi_mod_text_patched. now rewrite map2_conv_map. Qed.
+  ansi_mod_text conv parts specs vals = ansi_mod_text_spec conv parts specs vals.
+Proof. intros H. unfold ansi_mod_text, ansi_mod_text_spec. now rewrite map2_conv_map. Qed.
 
 (* plain %s *)
 Corollary html_mod_plain parts specs vals :
@@ -47,19 +47,19 @@ Proof.
   apply firstn_map.
 Qed.
 
-(* The proposed __mod__: the markup is the template with each conversion's
+(* The specification: the markup is the template with each conversion's
    OUTPUT escaped, i.e. an ordinary interpolation of those outputs - so every
    inertness theorem applies to it, whatever the conversions do. *)
-Theorem html_mod_patched_is_interpolation conv parts specs vals :
-  html_parse cfg_now (html_mod_markup_patched conv parts specs vals)
+Theorem html_mod_spec_is_interpolation conv parts specs vals :
+  html_parse cfg_now (html_mod_markup_spec conv parts specs vals)
   = html_template cfg_now parts (map2_conv conv specs vals).
-Proof. unfold html_mod_markup_patched, html_template. reflexivity. Qed.
+Proof. unfold html_mod_markup_spec, html_template. reflexivity. Qed.
 
 (* the code as it is: '<b>%.3s</b>' % '&&&&' *)
 Theorem html_mod_refuted :
   exists conv parts specs vals,
     html_parse cfg_now (html_mod_markup conv parts specs vals) = Err 2 /\
-    html_parse cfg_now (html_mod_markup_patched conv parts specs vals)
+    html_parse cfg_now (html_mod_markup_spec conv parts specs vals)
     = Ok [mkfrag [99; 108; 97; 115; 115; 58; 98] [38; 38; 38] []].
 Proof.
   exists (fun _ s => firstn 3 s), [[60; 98; 62]; [60; 47; 98; 62]], [0], [[38; 38; 38; 38]].
